@@ -486,7 +486,7 @@ PROPS = {
                       "encoding is go-git's. The frame is observed through refs, HEAD, index, working tree, hooks, info, local configuration "
                       "and the top level of .git.",
         "required_theorems": ["sortTree_perm", "sortTree_sorted", "sorted_tree_fsck_ok", "pack_tree_fsck_ok", "extra_tree_fsck_ok",
-                              "built_refs_in_namespace", "host_refs_untouched", "gen_ref_literals", "gen_config_literals", "cleanIdent_no_special", "plain_ident_fsck_ok", "cleaned_ident_fsck_ok", "raw_ident_fsck_fails"],
+                              "built_refs_in_namespace", "host_refs_untouched", "gen_ref_literals", "gen_config_literals", "cleanIdent_no_special", "plain_ident_fsck_ok", "cleaned_ident_fsck_ok", "raw_ident_fsck_fails", "removeAll_section_frame", "removeAll_sub_frame"],
         "slices": ["C15"],
         "needs_gitbug": True,
         "timeout": {"quick": 2400, "thorough": 7200},
